@@ -4,7 +4,7 @@ H=$(git -C /repo rev-parse HEAD)
 for P in "$@"; do
   git -C /tmp/sw/$P checkout -q -- . ; git -C /tmp/sw/$P checkout -q --detach $H
   (cd /tmp/sw/$P && /venv/bin/python setup.py build_ext --inplace >/dev/null 2>&1)
-  for s in c d e f g h i j k l m n o p; do
+  for s in c d e f g h i j k l m n o p q r s t; do
     [ -d /tmp/sw/$P/seeded_$P$s ] || continue; [ -f /tmp/sw/eval_$P$s.json ] && continue
     cd /verif && python3 tools/eval_seeded.py /tmp/sw/$P seeded_$P$s $P > /tmp/sw/eval_$P$s.json 2>&1
     echo "done $P$s"
